@@ -12,7 +12,7 @@ import scipy.sparse as sp
 from toqito import matrices as M
 from toqito import states as S
 
-from ..exact import call
+from ..exact import Pure, call, case_rng, describe, present_nd
 
 RULE = ("every constructor exported by toqito.states / toqito.matrices on dims 2..5, qubit counts 1..5 (0..5 for hadamard), all index "
         "pairs, all accepted argument forms (int/str/list, sparse flag, coefficient vectors with rational norm, scalar and list alpha), "
@@ -21,7 +21,9 @@ RULE = ("every constructor exported by toqito.states / toqito.matrices on dims 2
         "dimension >= 2 and the arguments do not select the identity / a computational basis vector; distinct = hash of (constructor, arguments). "
         "Comparison with the model: exact for integer-valued outputs, exact zero pattern + 1e-12 on the non-zero entries otherwise "
         "(1/sqrt(n) and roots of unity are not floats). Identities on the implementation's arrays: 1e-12, invariance under exact rational "
-        "unitaries evaluated in integer arithmetic on the exact dyadic value of the returned floats.")
+        "unitaries evaluated in integer arithmetic on the exact dyadic value of the returned floats. "
+        "The few array-like arguments (coefficient vectors of w_state / ghz as list and as ndarray in C / strided layout with int64 or float64 dtype, alpha lists of "
+        "werner, dim of horodecki as list / ndarray, mat_params of chessboard, index lists of pauli) are compared with a deep snapshot after the call.")
 ASSUMPTIONS = [
     "roots of unity: the harness evaluates the exponent model with exp(2*pi*i*k/d) in float64 (error <= 2 ulp) and compares within 1e-12",
     "PPT verdicts: numpy.linalg.eigvalsh on the harness's own partial transpose; verdicts are only asserted at distance >= 1e-6 (in alpha) from the threshold, "
@@ -187,7 +189,23 @@ class K:
         return self.ctx.violation(f"{fn}{args}: {what}", info)
 
     def run_impl(self, f, *a, **k):
-        return call(f, *a, kinds=(), **k)
+        guard = Pure(*a, **k)
+        out = call(f, *a, kinds=(), **k)
+        self.check_pure(guard, getattr(f, "__name__", str(f)), a)
+        return out
+
+    def check_pure(self, guard, fn, a):
+        """purity assertion on the (list / ndarray) arguments of a constructor call"""
+        why = guard.modified()
+        if why:
+            self.ctx.violation(f"{fn}: caller's arguments were modified", {"function": fn, "args": describe(list(a)), "modified": why})
+
+    def pure(self, f, *a, **k):
+        """f(*a, **k) with the purity assertion (exceptions propagate as before)"""
+        guard = Pure(*a, **k)
+        out = f(*a, **k)
+        self.check_pure(guard, getattr(f, "__name__", str(f)), a)
+        return out
 
     # -- comparison with the three model encodings
     def cmp_ru(self, fn, args, impl, res, theorem):
@@ -331,7 +349,7 @@ def check_pauli(k: K):
         arrs = {}
         for s in strs:
             args = {"ind": list(s)}
-            P = dense(M.pauli(list(s)))
+            P = dense(k.pure(M.pauli, list(s)))
             arrs[s] = P
             k.case("pauli", args, any(s), f"pauli/list{n}")
             k.cmp_int("pauli", args, P, k.L.ask("c17_int", {"kind": "pauli", "ind": list(s)}), "pauliString_trace_orthogonal")
@@ -340,11 +358,11 @@ def check_pauli(k: K):
             if tr != (2 ** n if s == t else 0):
                 k.bad(f"tr(P_s^dagger P_t) = {tr}", "pauli", {"s": list(s), "t": list(t)}, theorem="pauliString_trace_orthogonal")
     # string / sparse list forms
-    P = dense(M.pauli(["x", "Z"]))
+    P = dense(k.pure(M.pauli, ["x", "Z"]))
     k.case("pauli", {"ind": ["x", "Z"]}, True, "pauli/strlist")
     k.cmp_int("pauli", {"ind": ["x", "Z"]}, P, k.L.ask("c17_int", {"kind": "pauli", "ind": [1, 3]}), "pauliString_trace_orthogonal")
     for s in ([2, 1], [3, 1, 2]):
-        P = M.pauli(s, True)
+        P = k.pure(M.pauli, s, True)
         args = {"ind": s, "is_sparse": True}
         k.case("pauli", args, True, "pauli/sparselist")
         res = k.L.ask("c17_int", {"kind": "pauli", "ind": s})
@@ -553,9 +571,12 @@ def check_ghz(k: K):
         for c in cl:
             for n in (1, 2, 3):
                 nrm = SQ(sum(x * x for x in c))
-                for form, cpy in (("int", list(c)), ("normalised", [x / nrm for x in c])):
+                prng = case_rng("c17/ghz", d, n, c)
+                # the coefficient vector as list and as ndarray (documented: "a 1-by-dim vector"): int64 / float64, contiguous or a strided view
+                for form, cpy in (("int", list(c)), ("normalised", [x / nrm for x in c]), ("array-int", present_nd(prng, np.array(c))), ("array-float", present_nd(prng, np.array(c, dtype=float), allow_dtype=False)),
+                                  ("array-normalised", present_nd(prng, np.array(c) / nrm))):
                     args = {"dim": d, "num_qubits": n, "coeff": c, "form": form}
-                    v = S.ghz(d, n, cpy)
+                    v = k.pure(S.ghz, d, n, cpy)
                     k.case("ghz", args, True, "ghz/coeff")
                     k.cmp_int("ghz", args, v, k.L.ask("c17_int", {"kind": "ghz", "d": d, "n": n, "coeff": c}), "ghz_support")
     for (d, n, c) in [(0, 2, None), (-1, 2, None), (2, 0, None), (2, -1, None), (2, 2, [1, 2, 3]), (3, 2, [1, 2])]:
@@ -588,9 +609,12 @@ def check_w(k: K):
     for c in ([3, 4], [1, 2, 2], [2, 3, 6], [1, 1, 1, 1], [1, 2, 3, 4], [1, 2, 4, 10], [1, 1, 3, 3, 4]):
         n = len(c)
         nrm = SQ(sum(x * x for x in c))
-        for form, cpy in (("int", list(c)), ("normalised", [x / nrm for x in c])):
+        prng = case_rng("c17/w_state", c)
+        # list and ndarray forms (the docstring example passes an ndarray): int64 / float64, contiguous or a strided view
+        for form, cpy in (("int", list(c)), ("normalised", [x / nrm for x in c]), ("array-int", present_nd(prng, np.array(c))), ("array-float", present_nd(prng, np.array(c, dtype=float), allow_dtype=False)),
+                          ("array-normalised", present_nd(prng, np.array(c) / nrm))):
             args = {"num_qubits": n, "coeff": c, "form": form}
-            v = S.w_state(n, cpy)
+            v = k.pure(S.w_state, n, cpy)
             k.case("w_state", args, True, "w_state/coeff")
             k.cmp_int("w_state", args, v, k.L.ask("c17_int", {"kind": "w_state", "n": n, "coeff": c}), "w_amplitude / w_support / w_norm (generalised W state, documented normalisation)", kind=w_kind)
     for (n, c) in [(1, None), (0, None), (-1, None), (4, [1, 2, 3]), (2, [1, 2, 3])]:
@@ -864,7 +888,8 @@ def check_horodecki(k: K):
         dl = [3, 3] if dim is None else [int(x) for x in dim]
         for a, c in pyth:
             args = {"a_param": qj(a), "dim": None if dim is None else dl, "dim_type": type(dim).__name__}
-            rho = S.horodecki(ffloat(a), dim)
+            pdim = present_nd(case_rng("c17/horodecki", dl, qj(a)), dim, allow_dtype=False) if isinstance(dim, np.ndarray) else dim
+            rho = k.pure(S.horodecki, ffloat(a), pdim)
             k.case("horodecki", args, True, f"horodecki/{dl}")
             m = k.L.ask("c17_rat", {"kind": "horodecki", "a": qj(a), "c": qj(c), "dim": dl})
             k.cmp_rat("horodecki", args, rho, m, "(model definition) horodecki33 / horodecki24; horodecki_trace_one")
@@ -967,7 +992,7 @@ def check_misc(k: K):
             k.bad("odd / non-positive dimension not rejected", "breuer", {"dim": d}, theorem="(documented range)")
     for _ in range(3):
         p = [float(x) for x in rng.integers(1, 6, size=6)]
-        c = S.chessboard(p)
+        c = k.pure(S.chessboard, p)
         k.case("chessboard", {"mat_params": p}, True)
         k.close("trace 1", "chessboard", {"mat_params": p}, np.trace(c), 1.0)
         if np.linalg.eigvalsh((c + c.conj().T) / 2).min() < -TOL:
